@@ -197,7 +197,7 @@ func H_C13_Protocol(nAssets, ns, nStrat, explicitNames int) {
 // result; the engine's certificate over memory cells reports data races.
 func H_C13_Workers(nAssets, ns, nStrat, workers, html int) {
 	repo := asset.NewInMemoryRepository()
-	names := []string{"a0", "a1", "a2"}[:nAssets]
+	names := []string{"a0", "a1", "a2", "a3", "a4"}[:nAssets]
 	for _, name := range names {
 		ss := snapsAt(name, incDays(name, ns))
 		for _, s := range ss {
